@@ -543,6 +543,10 @@ func (c *SpecCtx) ssaName(name string) (TV, bool) {
 		}
 		if isAddr {
 			pt := v.Type().Underlying().(*types.Pointer)
+			if _, isGlobal := v.(*ssa.Global); isGlobal && (shapeKindOf(pt.Elem()) == kStruct || shapeKindOf(pt.Elem()) == kArrayOfComposite) {
+				// struct-typed package variables are kept as pointers to their storage, as in object()
+				return TV{val, v.Type()}, true
+			}
 			l := locOfRef(val.(Sc).T, pt.Elem())
 			if kl, ok := c.e.locs[v]; ok && kl.Priv != "" {
 				// non-escaping local: its content lives in the private heap
